@@ -35,6 +35,7 @@ func C01(r *core.Run) {
 	rules.UniqueCase(r, codecRel, "decoder.decodeMapField", "lib/j5reflect")
 	arrayDecodeCoverage(r)
 	whoTouchesProto(r)
+	anyContent(r) // an Any of an all-default message still carries (empty) content
 }
 
 // encodeDecodeMatrix (R-FLOW/F1): what the encoder writes for a kind, the
